@@ -130,6 +130,12 @@ def corrupt_dicts(d, r):
             out.append((e, f'missing key {k}'))
     e = copy.deepcopy(d); e['objects'] = list(e['objects'][:-1]) + [3]; out.append((e, 'non-string object'))
     e = copy.deepcopy(d); e['properties'] = [None] + list(e['properties'][1:]); out.append((e, 'non-string property'))
+    e = copy.deepcopy(d); e['objects'] = [True] + list(e['objects'][1:]); out.append((e, 'non-string first object'))
+    e = copy.deepcopy(d); e['properties'] = list(e['properties'][:-1]) + [7]; out.append((e, 'non-string last property'))
+    for k in range(len(d['objects'])):
+        e = copy.deepcopy(d); e['objects'] = [None if i == k else x for i, x in enumerate(e['objects'])]; out.append((e, f'non-string object at {k}'))
+    for k in range(len(d['properties'])):
+        e = copy.deepcopy(d); e['properties'] = [0 if i == k else x for i, x in enumerate(e['properties'])]; out.append((e, f'non-string property at {k}'))
     e = copy.deepcopy(d); e['objects'] = list(e['objects'])[:-1]; out.append((e, 'drop an object name'))
     e = copy.deepcopy(d); e['objects'] = list(e['objects']) + [e['objects'][0]]; e['context'] = list(e['context']) + [e['context'][0]]; out.append((e, 'duplicate object with its row'))
     e = copy.deepcopy(d); e['properties'] = list(e['properties']) + [e['objects'][0]]; out.append((e, 'object name also a property'))
@@ -195,6 +201,9 @@ def cases(tier, seed):
                     if with_lat and note in risky:
                         ig = True
                     add(dict_case(e, ig, rq, note))
+                    if note in ('empty lattice', 'lattice None', 'missing key lattice'):
+                        for ig2, rq2 in ((False, False), (True, False), (False, True), (True, True)):
+                            add(dict_case(e, ig2, rq2, note))
                 for e, note in r.sample(cds, 3):
                     try:
                         for e2, note2 in r.sample(corrupt_dicts(e, r), 2):
